@@ -2,7 +2,7 @@
 """usage: mkregress.py PROP COMMIT NAME [tier] -- reverts fix COMMIT in a scratch worktree, runs the check there, and
 stores the (smallest) replay file as regress/PROP/NAME.json; then confirms it passes on /repo."""
 import glob, json, os, shutil, subprocess, sys
-WT='/tmp/wt/mine2'
+WT=os.environ.get('SEED_WT','/tmp/wt/mine2')
 prop, commit, name = sys.argv[1:4]
 tier = sys.argv[4] if len(sys.argv) > 4 else 'quick'
 if not os.path.isdir(WT): subprocess.run(f'git -C /repo worktree add --detach {WT} HEAD', shell=True)
